@@ -326,7 +326,7 @@ static void op_or_ver(int argc, char **argv) {
 /* ------------------------------------------------------------------------------------------------------------- */
 /* extendable ring signatures */
 
-#define MAXRING 6
+#define MAXRING 8
 static ers_t RING[MAXRING];
 static etrs_t TRING[MAXRING];
 static smlers_t LRING[MAXRING];
@@ -490,7 +490,7 @@ static void op_smlers_run(int argc, char **argv) {
 static void op_smlers_ver(int argc, char **argv) {
 	if (argc < 5) BAD();
 	int k = parse_int(argv[4]), caught = 0, v = -1;
-	if (k < 0 || k > 4 || argc < 5 + 11 * k) BAD();
+	if (k < 0 || k > 5 || argc < 5 + 11 * k) BAD();
 	NEWEC(pp); NEWEC(hm); NEWBN(td);
 	bn_tok(td, argv[1]);
 	int ml = bytes_parse(M1, MAXM, argv[2]);
